@@ -464,6 +464,15 @@ Definition base_dangling_tables (s : schema) : list string :=
                                         | _ => []
                                         end) (t_constraints t)) s.
 
+(* K5c: the sequel of K5 in a LATER migration.  apply.rs RemoveConstraint removes the constraints EQUAL to the one it is
+   given; after DeleteColumn shrank the composite key [id, part] to [part], the planner's RemoveConstraint
+   PrimaryKey [id, part] removed nothing from the replayed baseline and its AddConstraint PrimaryKey appended a
+   SECOND primary key: a state no database can be in.  catalog_of counts the first (stale) key, so a foreign key
+   to the columns of the intended key finds no unique index over them *)
+Definition base_stale_key_tables (s : schema) : list string :=
+  flat_map (fun t => if Nat.leb 2 (List.length (filter is_pk (t_constraints t))) then [t_name t] else []) s.
+Definition kstep_never (s : schema) (a : action) (rest : list action) : bool := false.
+
 Definition classes : list kclass :=
   [ mkClass "known_C03_check_in_create" no_base_t kstep_check_in_create no_extra [7] [DkMissingCon]
   ; mkClass "known_C03_shared_enum" no_base_t kstep_shared_enum no_extra [10; 2] []
@@ -488,7 +497,8 @@ Definition classes : list kclass :=
   ; mkClass "known_C03_key_replaced_under_fk" no_base_t kstep_key_replaced_under_fk no_extra [11] []
   ; mkClass "known_C03_reference_before_key" no_base_t kstep_reference_before_key no_extra [13; 3; 4] []
   ; mkClass "known_C03_fk_lost_by_column_drop" no_base_t kstep_fk_lost_by_column_drop no_extra [] [DkExtraCon; DkConDiffers]
-  ; mkClass "known_C03_fk_lost_by_column_drop" no_base_t kstep_inline_resurrected no_extra [8; 1] index_con_diffs ].
+  ; mkClass "known_C03_fk_lost_by_column_drop" no_base_t kstep_inline_resurrected no_extra [8; 1] index_con_diffs
+  ; mkClass "known_C03_composite_member" base_stale_key_tables kstep_never no_extra [13] [] ].
 Definition class_names : list string := map kc_name classes.
 
 Definition mem_nat (n : nat) (l : list nat) : bool := existsb (Nat.eqb n) l.
